@@ -142,6 +142,24 @@ static constexpr bool can_type_be_memcopied =
   std::is_same_v<char16_t, std::remove_cv_t<T>> || std::is_same_v<short, std::remove_cv_t<T>>;
 
 /**
+ * @brief short and char16_t buffers can be copied bytewise only when the
+ * sandbox's ABI gives them the same width as the application's
+ */
+template<typename T, typename T_Sbx>
+static constexpr bool is_memcopied_type_same_in_sandbox()
+{
+  using T_NoCV = std::remove_cv_t<T>;
+  if constexpr (std::is_same_v<char16_t, T_NoCV> ||
+                std::is_same_v<short, T_NoCV>) {
+    using T_Guest = typename rlbox_sandbox<
+      T_Sbx>::template convert_to_sandbox_equivalent_nonclass_t<T_NoCV>;
+    return sizeof(T_Guest) == sizeof(T_NoCV);
+  } else {
+    return true;
+  }
+}
+
+/**
  * @brief Copy to sandbox memory area. Note that memcpy is meant to be called on
  * byte arrays does not adjust data according to ABI differences. If the
  * programmer does accidentally call memcpy on buffers that needs ABI
@@ -243,6 +261,10 @@ tainted<T*, T_Sbx> copy_memory_or_grant_access(rlbox_sandbox<T_Sbx>& sandbox,
   static_assert(can_type_be_memcopied<std::remove_pointer_t<T>>,
                 "copy_memory_or_grant_access not supported on this type as "
                 "there may be ABI differences");
+  static_assert(
+    is_memcopied_type_same_in_sandbox<std::remove_pointer_t<T>, T_Sbx>(),
+    "copy_memory_or_grant_access not supported on this type as "
+    "there may be ABI differences: the sandbox's ABI gives it another width");
 
   // The byte size must not wrap: the range check below would then look at a
   // tiny range while the plugin is asked about num elements
@@ -311,6 +333,10 @@ T* copy_memory_or_deny_access(rlbox_sandbox<T_Sbx>& sandbox,
   static_assert(can_type_be_memcopied<std::remove_pointer_t<T>>,
                 "copy_memory_or_deny_access not supported on this type as "
                 "there may be ABI differences");
+  static_assert(
+    is_memcopied_type_same_in_sandbox<std::remove_pointer_t<T>, T_Sbx>(),
+    "copy_memory_or_deny_access not supported on this type as "
+    "there may be ABI differences: the sandbox's ABI gives it another width");
 
   // The byte size must not wrap: the range check below would then look at a
   // tiny range while the plugin is asked about num elements
